@@ -20,6 +20,10 @@ type Finding struct {
 	What       string `json:"what"`
 	Status     string `json:"status"` // open | fixed
 	Commit     string `json:"commit,omitempty"`
+	// After: for an open finding, the failing path classes it covers: the obligation fails on paths whose last call
+	// (by site name, e.g. "AddNodeBalance#1") is one of these. The same obligation failing after any other call is
+	// a different violation and is reported. Empty = any path (avoid).
+	After []string `json:"after,omitempty"`
 }
 
 type FindingsFile struct {
@@ -184,7 +188,7 @@ func cmdCheck(args []string) {
 	if dbg := os.Getenv("VERIF_DEBUG_FUNC"); dbg != "" {
 		for _, o := range all {
 			if strings.Contains(o.Name, dbg) {
-				fmt.Fprintf(os.Stderr, "debug: %s path=%d mustfail=%v -> %s (%s)\n", o.Name, o.Path, o.MustFail, o.Result.Answer, o.Result.Solver)
+				fmt.Fprintf(os.Stderr, "debug: %s path=%d after=%q mustfail=%v -> %s (%s)\n", o.Name, o.Path, o.After, o.MustFail, o.Result.Answer, o.Result.Solver)
 			}
 		}
 	}
@@ -285,17 +289,28 @@ func cmdCheck(args []string) {
 	os.MkdirAll(replayDir, 0o755)
 	for _, name := range failOrder {
 		f := failures[name]
-		known := false
 		for _, kf := range ff.Findings {
 			if kf.Status == "open" && kf.Property == *prop && kf.Obligation == name {
-				fmt.Printf("KNOWN-FINDING: property=%s %s [%s]\n", *prop, kf.What, name)
-				knownOut = append(knownOut, map[string]string{"obligation": name, "what": kf.What})
-				known = true
+				// the listed finding covers the failing instances on its own path classes only
+				var rest []*Obligation
+				covered := 0
+				for _, o := range f.obls {
+					if len(kf.After) == 0 || containsStr(kf.After, o.After) {
+						covered++
+					} else {
+						rest = append(rest, o)
+					}
+				}
+				if covered > 0 {
+					fmt.Printf("KNOWN-FINDING: property=%s %s [%s]\n", *prop, kf.What, name)
+					knownOut = append(knownOut, map[string]string{"obligation": name, "what": kf.What})
+					knownObls += covered
+				}
+				f.obls = rest
 				break
 			}
 		}
-		if known {
-			knownObls += len(f.obls)
+		if len(f.obls) == 0 {
 			continue
 		}
 		violations++
@@ -473,3 +488,12 @@ func writeReplay(e *Engine, verifDir, dir, prop string, obls []*Obligation) (str
 }
 
 var _ = ssa.GlobalDebug
+
+func containsStr(l []string, s string) bool {
+	for _, x := range l {
+		if x == s {
+			return true
+		}
+	}
+	return false
+}
